@@ -50,14 +50,24 @@ Wide(top, inner, mirror) ==
       abstract |-> {},
       expr |-> [e \in {"q", "k", "l", "m", "n", "o"} |->
                   IF e = "q" THEN Op(top, IF mirror THEN <<g2, g1>> ELSE <<g1, g2>>) ELSE None]]
-Shapes == {Unmentioned(o2, abs) : o2 \in (IF Deep THEN Ops ELSE {"oneof"}), abs \in BOOLEAN}
+(* two trees that share a subtype: c below both roots, each root with its own constraint over c and another        *)
+(* subtype, one of those with a subtype of its own (the matcher joins the roots' lists and backtracks across them)  *)
+TwoRoots(o1, o2) ==
+  [ents |-> <<"a", "b", "c", "d", "p", "q">>,
+   supers |-> [e \in {"a", "b", "c", "d", "p", "q"} |->
+                 CASE e = "b" -> {"a"} [] e = "c" -> {"a", "p"} [] e = "d" -> {"b"} [] e = "q" -> {"p"} [] OTHER -> {}],
+   abstract |-> {},
+   expr |-> [e \in {"a", "b", "c", "d", "p", "q"} |->
+               IF e = "a" THEN Op(o1, <<Leaf("b"), Leaf("c")>>) ELSE IF e = "p" THEN Op(o2, <<Leaf("q"), Leaf("c")>>) ELSE None]]
+Shapes == {TwoRoots(o1, o2) : o1 \in (IF Deep THEN Ops ELSE {"oneof"}), o2 \in (IF Deep THEN Ops ELSE {"andor", "oneof"})}
+          \cup {Unmentioned(o2, abs) : o2 \in (IF Deep THEN Ops ELSE {"oneof"}), abs \in BOOLEAN}
           \cup {Wide(top, inner, mirror) : top \in (IF Deep THEN {"andor", "and"} ELSE {"andor"}),
                                           inner \in (IF Deep THEN {"and", "andor"} ELSE {"and"}), mirror \in BOOLEAN}
           \cup {Root3(t, abs) : t \in Trees3, abs \in (IF Deep THEN BOOLEAN ELSE {FALSE})}
           \cup {Root3(Op("oneof", <<Leaf("a"), Leaf("b"), Leaf("c")>>), TRUE), Root3(Op("andor", <<Leaf("a"), Leaf("b")>>), TRUE)}
           \cup {TwoLevel(o1, o2) : o1 \in (IF Deep THEN Ops ELSE {"oneof"}), o2 \in (IF Deep THEN Ops ELSE {"oneof", "and"})}
           \cup {Diamond(o) : o \in {"andor", "and"}} \cup {AbsChain, NoExpr}
-CasesOf(sh) == {[s |-> S, legal |-> Legal(sh, S), dev |-> DevOf(sh, S)] : S \in (SUBSET EntsOf(sh)) \ {{}}}
+CasesOf(sh) == {[s |-> S, legal |-> Legal(sh, S), dev |-> DevOf(sh, S), free |-> ~Connected(sh, S)] : S \in (SUBSET EntsOf(sh)) \ {{}}}
 VARIABLE sh
 Init == sh \in Shapes
 Next == UNCHANGED sh
